@@ -593,9 +593,10 @@ impl<'a, 'b> InternalDelphiLogicalLineParser<'a, 'b> {
             level: ParserContextLevel::Level(0),
         });
 
-        let parent = self.get_line_parent_of_current_token();
-        if let Some(KK::Then) = self.get_current_keyword_kind() {
+        let parent = if let Some(KK::Then) = self.get_current_keyword_kind() {
+            let parent = self.get_line_parent_of_current_token();
             self.next_token(); // then
+            parent
         } else {
             return;
         };
@@ -644,9 +645,10 @@ impl<'a, 'b> InternalDelphiLogicalLineParser<'a, 'b> {
             level: ParserContextLevel::Level(0),
         });
 
-        let parent = self.get_line_parent_of_current_token();
-        if let Some(KK::Do) = self.get_current_keyword_kind() {
+        let parent = if let Some(KK::Do) = self.get_current_keyword_kind() {
+            let parent = self.get_line_parent_of_current_token();
             self.next_token(); // do
+            parent
         } else {
             return;
         };
